@@ -363,6 +363,49 @@ func c01Edges(e *Env, s *Sched) {
 		}
 		r.Check(good == 2, ShortFn(addEdge)+": to[to.id]+=from.id and from[from.id]+=to.id", e.Pos(addEdge.Pos()),
 			"the edge writer does not record the edge in both directions with the expected orientation")
+		// both directions are recorded under the same conditions: the two maps stay
+		// inverse to each other as multisets (a de-duplication or filter applied to
+		// one side only makes the readiness gate, the cycle test and the retry walk
+		// disagree about the edge set)
+		type lk struct {
+			i   *ssa.If
+			pol bool
+		}
+		var sets []map[lk]bool
+		var sites []ssa.Instruction
+		for _, b := range addEdge.Blocks {
+			for _, in := range b.Instrs {
+				if mu, ok := in.(*ssa.MapUpdate); ok {
+					if mp, ok := e.C.PathOf(mu.Map); ok && (mp.Dotted() == "to" || mp.Dotted() == "from") {
+						m := map[lk]bool{}
+						for _, l := range e.Facts(addEdge).DCS(b) {
+							m[lk{l.If, l.Pol}] = true
+						}
+						sets = append(sets, m)
+						sites = append(sites, in)
+					}
+				}
+			}
+		}
+		same := len(sets) == 2
+		if same {
+			for k := range sets[0] {
+				if !sets[1][k] {
+					same = false
+				}
+			}
+			for k := range sets[1] {
+				if !sets[0][k] {
+					same = false
+				}
+			}
+		}
+		pos := e.Pos(addEdge.Pos())
+		if len(sites) > 0 {
+			pos = e.InstrPos(sites[len(sites)-1])
+		}
+		r.Check(same, ShortFn(addEdge)+": both adjacency maps are updated under the same conditions", pos,
+			"an edge is recorded in one adjacency map but (under some condition) not in the other: g.to and g.from are no longer inverse to each other, so the readiness gate / in-degree count (g.to) and the relaxation / retry walk (g.from) see different edge sets - e.g. a dependency listed twice makes the cycle test subtract an edge it never counted")
 	} else {
 		r.Unknown(ShortFn(addEdge)+" signature", e.Pos(addEdge.Pos()), "expected (g, from, to)")
 	}
